@@ -142,8 +142,24 @@ def _removal_pairing(ctx):
             site = site[0]
             count += 1
             _check_removal(ctx, func, graph, site, var)
-    ctx.require(count >= 5, 'server.remove(<instance>.name) sites in Cell '
-                            '(found %d)' % count)
+    # ... the same for an instance un-placed by a direct store (the server
+    # it names is gone, there is nothing to remove it from)
+    for func in cell.live_methods():
+        graph = None
+        for sub in K.walk_no_nested(func.node):
+            if isinstance(sub, ast.Assign) and len(sub.targets) == 1 and \
+                    isinstance(sub.targets[0], ast.Attribute) and \
+                    sub.targets[0].attr == 'server' and \
+                    isinstance(sub.targets[0].value, ast.Name) and \
+                    isinstance(sub.value, ast.Constant) and \
+                    sub.value.value is None:
+                var = sub.targets[0].value.id
+                graph = graph or ctx.cfg(func)
+                site = [n for n in graph.nodes if n.ast is sub]
+                if site:
+                    count += 1
+                    _check_removal(ctx, func, graph, site[0], var)
+    ctx.require(count >= 6, 'un-placement sites in Cell (found %d)' % count)
 
 
 def _check_removal(ctx, func, graph, site, var):
@@ -605,7 +621,11 @@ def _group_removal(ctx):
     # the deletion is reachable only when the loop found no reference
     flags = set()
     for start in flagged:
-        for node in [start] + list(C.reach_after(start, edge_ok=C.no_exc)):
+        # the part of the iteration that follows the 'found' outcome (up to
+        # the loop head): only a flag raised there says "in use"
+        region = K.cut_reach(graph, start, cut_node=lambda n: n is loop,
+                             follow_exc=False)
+        for node in region:
             if node.kind == 'stmt' and isinstance(node.ast, ast.Assign) and \
                     isinstance(node.ast.targets[0], ast.Name) and \
                     isinstance(node.ast.value, ast.Constant) and \
